@@ -117,7 +117,7 @@ Init == /\ \E pr \in InitPairs : A = pr[1] /\ B = pr[2]
         /\ gen = 0
         /\ op = [name |-> "init"]
         /\ d = 0
-        /\ turn = "any"
+        /\ turn \in (IF Sched THEN Kinds ELSE {"any"})
         /\ hist = IF EmitMode = "hist" THEN <<[op |-> [name |-> "init"], a |-> PJ(A), bch |-> TRUE, b |-> PJ(B)]>> ELSE <<>>
 
 \* simulation only: one extra stuttering-like step after the last operation, so that the complete history is
@@ -132,17 +132,20 @@ Redraw == /\ Sched /\ d < MaxDepth
           /\ op' = [name |-> "redraw"]
           /\ UNCHANGED <<A, B, gen, d, hist>>
 
+\* the kind guard comes first so that, under the scheduler, only the drawn kind is evaluated at all
+Turn(k) == turn = "any" \/ turn = k
+
 Ops ==  /\ d < MaxDepth
-        /\ \/ \E f \in KeyFields : \E vals \in Offered(f) : Subset(f, vals)
-           \/ \E f \in KeyFields : \E vals \in Offered(f) : RemoveRows(f, vals)
-           \/ \E f \in SplitFields : Split(f)
-           \/ Intersect
-           \/ \E dupf \in {"sid", "obj"} : \E asc \in BOOLEAN : DropDup(dupf, asc)
-           \/ \E order \in Orders : MergeRenumber(order)
-           \/ \E order \in Orders : MergeDropDup(order)
-           \/ RenumberParticles
-           \/ \E s \in Starts : RenumberObjects(s)
-           \/ \E bump \in {0, 1} : Fork(bump)
+        /\ \/ Turn("subset") /\ \E f \in KeyFields : \E vals \in Offered(f) : Subset(f, vals)
+           \/ Turn("remove") /\ \E f \in KeyFields : \E vals \in Offered(f) : RemoveRows(f, vals)
+           \/ Turn("split") /\ \E f \in SplitFields : Split(f)
+           \/ Turn("intersect") /\ Intersect
+           \/ Turn("dropdup") /\ \E dupf \in {"sid", "obj"} : \E asc \in BOOLEAN : DropDup(dupf, asc)
+           \/ Turn("merge_renumber") /\ \E order \in Orders : MergeRenumber(order)
+           \/ Turn("merge_dropdup") /\ \E order \in Orders : MergeDropDup(order)
+           \/ Turn("renumber_particles") /\ RenumberParticles
+           \/ Turn("renumber_objects") /\ \E s \in Starts : RenumberObjects(s)
+           \/ Turn("fork") /\ \E bump \in {0, 1} : Fork(bump)
 
 Next == Ops \/ Finish \/ Redraw
 
